@@ -108,13 +108,19 @@ def fitsLong (rs : Cons) : IntRepr :=
   | none, none => .long
 
 /-- native_long_sign: 1 unsigned, 0 = exactly `(0..4294967295)` (also unsigned; the callers only
-    test `≥ 0` since the `ulong_optimization` shortcut is gone, F26), -1 signed -/
+    test `≥ 0` since the `ulong_optimization` shortcut is gone, F26), -1 signed.
+    Last clause (repair of F81): an INTEGER_t (`FL_NOTFIT`) whose lower edge is a value ≥ 0 is read
+    as `unsigned long` too — except the plain `(0..MAX)`, which the generated code tests by looking
+    at the sign bit (not reachable here: without -fwide-types `(0..MAX)` is an `unsigned long`). -/
 def nativeLongSign (rs : Cons) : Int :=
   match overallLo rs, overallHi rs with
-  | some l, none => if 0 ≤ l && l ≤ 2147483647 then 1 else -1
+  | some l, none =>
+      if 0 ≤ l && l ≤ 2147483647 then 1
+      else if 0 ≤ l && (0 < l || rs.length ≥ 2) && fitsLong rs == .wide then 1 else -1
   | some l, some r =>
       if 0 ≤ l && 2147483647 < r && r ≤ 4294967295 then
         (if rs.length == 1 && l == 0 && r == 4294967295 then 0 else 1)
+      else if 0 ≤ l && fitsLong rs == .wide then 1
       else -1
   | _, _ => -1
 
@@ -141,19 +147,23 @@ inductive Gen where
 deriving Repr, DecidableEq
 
 /-- what the generated code reads from the structure (`long` / `unsigned long` member, or
-    INTEGER_t through asn_INTEGER2long; `none` = "value too large") -/
-def readInt (repr : IntRepr) (v : Int) : Option Int :=
+    INTEGER_t through asn_INTEGER2long — asn_INTEGER2ulong when `unsigned long value` was declared,
+    `usign`; `none` = "value too large") -/
+def readInt (repr : IntRepr) (usign : Bool) (v : Int) : Option Int :=
   match repr with
   | .long => some v
   | .ulong => some v
-  | .wide => if -9223372036854775808 ≤ v && v ≤ 9223372036854775807 then some v else none
+  | .wide =>
+    if usign then (if 0 ≤ v && v ≤ 18446744073709551615 then some v else none)
+    else if -9223372036854775808 ≤ v && v ≤ 9223372036854775807 then some v else none
 
 /-- asn1c_emit_constraint_checking_code for INTEGER with constraint `rs` -/
 def genInt (rs : Cons) (v : Int) : Gen :=
-  if (overallLo rs).isNone && (overallHi rs).isNone then .noTest      -- r_value dropped
+  -- r_value is dropped when it is the single range MIN..MAX (`el_count == 0`; a union is kept: F85)
+  if decide (rs.length ≤ 1) && (overallLo rs).isNone && (overallHi rs).isNone then .noTest
   else
     let sign := nativeLongSign rs                                      -- ≥ 0: `unsigned long value`
-    match readInt (fitsLong rs) v with
+    match readInt (fitsLong rs) (decide (sign ≥ 0)) v with
     | none => .fail .valueTooLarge
     | some x =>
       let code := emitRange rs (if sign ≥ 0 then some 0 else none) none
@@ -245,10 +255,12 @@ def alphaRanges (k : StrKind) (alpha : Option Cons) : Option Cons :=
   | some rs => some rs
   | none => defaultAlphabet k
 
-/-- table (`permitted_alphabet_table_N`) or comparison loop? -/
+/-- table (`permitted_alphabet_table_N`) or comparison loop?  A single range (`el_count == 0`) is
+    tested by comparisons — except for UTF8String, which is tested through the table or not at all
+    (repair of F83) -/
 def useTable (k : StrKind) (rs : Cons) : Bool :=
   let stop := (overallHi rs).getD 0
-  decide (rs.length ≥ 2) && decide (stop ≤ 255) && (k != .utf8 || decide (stop < 128))
+  (decide (rs.length ≥ 2) || k == .utf8) && decide (stop ≤ 255) && (k != .utf8 || decide (stop < 128))
 
 /-- the test applied to one character `cv` by the loop of `check_permitted_alphabet_N` -/
 def charOK (k : StrKind) (rs : Cons) (cv : Nat) : Bool :=
@@ -284,8 +296,10 @@ def strSize (k : StrKind) (bs : List Nat) (unused : Nat) : Option Nat :=
   | .utf8 => utf8Length bs.length bs
   | _ => some bs.length
 
-/-- is `r_size` kept?  (`left.value == 0 && right == MAX` is dropped) -/
-def keepSize (rs : Cons) : Bool := !((overallLo rs == some 0 || (overallLo rs).isNone) && (overallHi rs).isNone)
+/-- is `r_size` kept?  (the single range with `left.value == 0 && right == MAX` is dropped; a union
+    is kept: F85) -/
+def keepSize (rs : Cons) : Bool :=
+  !(decide (rs.length ≤ 1) && (overallLo rs == some 0 || (overallLo rs).isNone) && (overallHi rs).isNone)
 
 /-- the emitted size test on `size` (`natural_start` 0): `none` = nothing printed -/
 def sizeTest (rs : Cons) (n : Nat) : Option Bool :=
